@@ -29,6 +29,10 @@ P = {
          'Theorems for all subsets of scheduled parameters, all factor functions, all histories of scheduler steps (explicit or implicit) interleaved with preconditioner steps: each scheduled constant parameter is the left fold of old * f(step used) (truncated toward zero for the two intervals) of its own function only, unscheduled/callable parameters and the step count are untouched, construction is refused iff a scheduled parameter is callable; over Q: exp_decay = min(1 - 1/max(k,1), cap), within [0, cap], non-decreasing, 0 at steps 0 and 1, error for cap <= 0. Tie: random subsets with dyadic step-revealing factor tables, histories with real preconditioner.step() calls, all six properties read back after every call and compared exactly; exp_decay compared bit-for-bit with the binary64 model evaluated inside Coq.',
          'Coq kernel; PrimFloat primitives (float reading of exp_decay only); extraction + driver; IEEE-rounded monotonicity is checked on a sampled range, not proved.',
          'DESIGN.md §4 C19'),
+ 'C15': (True, 'Coq proof of the patch-extraction index arithmetic (any element type, all geometries) and, over the reals, of conv = patches x weights and of the adjoint identity characterising the combined gradient matrix + exact correspondence on integer tensors',
+         'Theorems for all channel counts, rectangular kernels, strides, zero paddings, input sizes, batch sizes: extract_patches (pad, unfold, unfold, permute, view as composed by the helper) at feature c*kh*kw+i*kw+j of position (p,q) is the padded input at (c, p*sh+i, q*sw+j), height padding on dim 2 and width padding on dim 3; conv2d = patches x view(weight)^T + bias; <go, conv(w, bias, x)> = <GM[:, :F], view(w)> + <GM[:, F], bias> for GM = sum over samples and positions of outer products of output-gradient rows and [patch | 1] rows (same for Linear with N-d inputs); set/get of the combined gradient are mutually inverse. Tie (exact, integer tensors): _extract_patches vs extracted model and vs F.unfold; model conv_fwd vs F.conv2d; get_grad() after real autograd backward vs extracted grad_matrix / lin_grad_matrix and vs an autograd-independent outer-product sum; position-revealing set_grad/get_grad round trips; factor shapes vs advertised shapes; linear inputs of rank 2-4.',
+         'Coq kernel; index theorems closed, adjoint identities use the standard-library real-number axioms; extraction + driver; F.conv2d/autograd are torch (spec validated against F.conv2d); dilation 1, groups 1.',
+         'DESIGN.md §4 C15'),
  'C16': (True, 'Coq proof about a model of named_modules (memoised pre-order walk) and register_modules for every module graph and every pattern outcome table + correspondence on random module trees against an independent walk',
          'Theorems for all graphs (incl. shared instances), all skip outcome tables, all roots: the registered list is exactly the walked modules that are leaves, linear or conv2d (linear first), with all parameters requiring gradients and neither qualified name nor class name matched; every module instance occurs at most once in the walk and is registered at most once; exactly the registered modules get one forward-pre and one backward hook. Tie: random torch.nn trees (containers, shared instances, subclasses, unsupported/parameter-free/frozen leaves, None children, bare-leaf root, GPT-NeoX class-name variant) x random pattern lists; named_modules order, registered (name, module, kind) and hook counts of every module compared with the extracted model; independent oracle per the property text.',
          'Coq kernel; extraction + driver; re.search outcomes are inputs (regex engine is an oracle); completeness of the walk w.r.t. reachability is not proved (compared with torch on every tree); DeepSpeed stand-in for the GPT-NeoX import. Closed under the global context.',
